@@ -273,6 +273,18 @@ fn pinned_programs() -> Vec<(&'static str, Vec<Stmt>)> {
                 for_(name("x"), v("cl"), Some(Expr::Bool(false)), vec![emit(v("x"))], Some(vec![emit(v("outer"))])),
             ] },
         ]),
+        // none is a value like any other for positional and keyword arguments and call-block parameters
+        ("macro_arguments_that_are_none", vec![
+            Stmt::Macro { name: "mac0".into(), params: vec![("p".into(), Some(Expr::str("dp"))), ("q".into(), Some(Expr::int(2)))], body: vec![t("["), emit(v("p")), t("|"), emit(v("q")), t("]")] },
+            emit(Expr::Call(Box::new(v("mac0")), vec![Arg::Pos(Expr::None)])),
+            emit(Expr::Call(Box::new(v("mac0")), vec![Arg::Kw("p".into(), Expr::None)])),
+            emit(Expr::Call(Box::new(v("mac0")), vec![Arg::Kw("q".into(), Expr::None)])),
+            emit(Expr::Call(Box::new(v("mac0")), vec![Arg::Pos(v("ci")), Arg::Kw("q".into(), Expr::None)])),
+            emit(Expr::Call(Box::new(v("mac0")), vec![Arg::Kw("q".into(), Expr::None), Arg::Kw("p".into(), Expr::None)])),
+            emit(Expr::Call(Box::new(v("mac0")), vec![])),
+            Stmt::Macro { name: "mac1".into(), params: vec![], body: vec![t("<"), emit(Expr::Call(Box::new(v("caller")), vec![Arg::Pos(Expr::None)])), emit(Expr::Call(Box::new(v("caller")), vec![])), t(">")] },
+            Stmt::CallBlock { params: vec![("n".into(), Some(Expr::int(9)))], call: Expr::call("mac1", vec![]), body: vec![t("("), emit(v("n")), t(")")] },
+        ]),
         ("macro_defaults_kwargs_caller", vec![
             Stmt::Macro { name: "mac0".into(), params: vec![("p".into(), None), ("q".into(), Some(Expr::str("dq")))], body: vec![t("<"), emit(v("p")), t("|"), emit(v("q")), t("|"), emit(Expr::call("caller", vec![Expr::int(7)])), t(">")] },
             Stmt::CallBlock { params: vec![("n".into(), None)], call: Expr::Call(Box::new(v("mac0")), vec![Arg::Pos(Expr::int(1)), Arg::Kw("q".into(), v("cs"))]), body: vec![t("c"), emit(v("n"))] },
